@@ -275,7 +275,7 @@ class Tokenizer:
             lines = {}
             count = 0
             seen = 0
-            with open(self._path, encoding="utf-8") as f:
+            with open(self._path, encoding="utf-8-sig") as f:
                 for line in f:
                     count += 1
                     if count in line_numbers:
